@@ -35,6 +35,7 @@ def value_corpus(knames):
     vals += [["int", v] for v in (-1, 0, 1, 2, 3, 150)]
     vals += [["bool", True], ["bool", False], ["float", 0.0], ["float", 1.0], ["float", 2.5], ["float", -3.5]]
     vals += [["str", s] for s in ("", "a", "z", "ab", "hello", "hello world")]
+    vals += [["ustr", "a"], ["ustr", "hello"]]  # in-bound but unhashable values
     vals += [["none"]]
     vals += [["list", []], ["list", [["int", 1]]], ["list", [["str", "a"]]], ["list", [["int", 1], ["str", "a"]]]]
     if knames:
